@@ -15,6 +15,7 @@ import (
 	"github.com/pion/dtls/v3/internal/closer"
 	dtlsflight "github.com/pion/dtls/v3/internal/flight"
 	dtlsfragmentbuffer "github.com/pion/dtls/v3/internal/fragmentbuffer"
+	dtlshandshake "github.com/pion/dtls/v3/internal/handshake"
 	dtlsstate "github.com/pion/dtls/v3/internal/state"
 	"github.com/pion/dtls/v3/pkg/crypto/clientcertificate"
 	"github.com/pion/dtls/v3/pkg/protocol"
@@ -242,6 +243,84 @@ func zzSeqReconstructInsideWindow13() {
 	default:
 		zzsymCover("behind_same_block")
 	}
+}
+
+// zzEstablishment6 puts the connection into one of the three situations the receive path can be in when an
+// application record arrives: no establishment tracker (connections built by hand / resumed from state), handshake
+// not yet marked established (a record that overtook the peer's Finished), established.
+func zzEstablishment6(c *Conn) {
+	switch zzsymChoice("establishment", 3) {
+	case 1:
+		c.handshakeEstablished = dtlshandshake.NewEstablishment()
+	case 2:
+		c.handshakeEstablished = dtlshandshake.NewEstablishment()
+		dtlshandshake.ZZMarkEstablished(c.handshakeEstablished)
+	}
+}
+
+// DTLS 1.2, nothing but the record itself touches the replay state of its epoch: an authentic application record
+// s1 of epoch 1 is delivered (whatever the establishment situation, zzEstablishment6), then ONE other record
+// arrives - a cleartext ChangeCipherSpec with an arbitrary epoch-0 sequence number (anybody can send one; the
+// peer's delayed or retransmitted final flight contains one), a cleartext handshake fragment, an undecodable
+// cleartext record, another authentic application record s2 != s1 fewer than W ahead, or a record that fails
+// authentication - and then s1 arrives AGAIN. Proved: the repetition is not delivered. (Histories with several
+// interlopers follow by induction: each leaves the state of the window as the lemma needs it.)
+//
+//symgo:entry covers=after_ccs,after_handshake_fragment,after_junk,after_other_record,after_forgery,early_record
+func zzConnReplayUnaffectedByOtherRecords12() {
+	c := zzConn6(64)
+	zzEstablishment6(c)
+	early := c.handshakeEstablished != nil && !c.handshakeEstablished.Established()
+	common := dtlsstate.CommonState(c.state)
+	common.LocalVersion = protocol.Version1_2
+	common.SetRemoteEpoch(1)
+	suite, _ := common.CipherSuite.(*zzSuite6)
+	mk := func(seq uint64) []byte {
+		h := recordlayer.Header{ContentType: protocol.ContentTypeApplicationData, Version: protocol.Version1_2, Epoch: 1, SequenceNumber: seq, ContentLen: 1}
+		raw, _ := h.Marshal()
+		return append(raw, 0x55)
+	}
+	s1 := zzsymU64("seq1")
+	zzsymAssume(s1 <= recordlayer.MaxSequenceNumber-64)
+	from := &net.UDPAddr{Port: 1}
+	_, err := c.handleIncomingPacket(context.Background(), mk(s1), from, nil)
+	zzsymAssert(err == nil && zzDrain6(c) == 1, "first_delivered")
+	if early {
+		zzsymCover("early_record")
+	}
+	seq0 := zzsymBytes("seq0", 6)
+	hdr0 := func(ct byte, n int) []byte {
+		return append(append([]byte{ct, 0xfe, 0xfd, 0, 0}, seq0...), byte(n>>8), byte(n))
+	}
+	var other []byte
+	switch zzsymChoice("interloper", 5) {
+	case 0:
+		other = append(hdr0(20, 1), 1)
+		zzsymCover("after_ccs")
+	case 1:
+		other = append(hdr0(22, 13), 1, 0, 0, 1, 0, zzsymU8("mseq"), 0, 0, 0, 0, 0, 1, 7)
+		zzsymCover("after_handshake_fragment")
+	case 2:
+		other = append(hdr0(zzsymU8("junk_type"), 2), zzsymU8("j0"), zzsymU8("j1"))
+		zzsymCover("after_junk")
+	case 3:
+		s2 := zzsymU64("seq2")
+		zzsymAssume(zzsymAnd(s2 > s1, s2-s1 < 64))
+		other = mk(s2)
+		zzsymCover("after_other_record")
+	default:
+		// a record of epoch 1 that fails authentication (any sequence number, also s1 itself or far ahead)
+		suite.verdicts = []bool{true, false}
+		s3 := zzsymU64("seq3")
+		zzsymAssume(s3 <= recordlayer.MaxSequenceNumber)
+		other = mk(s3)
+		zzsymCover("after_forgery")
+	}
+	_, _ = c.handleIncomingPacket(context.Background(), other, from, nil)
+	zzDrain6(c)
+	_, err = c.handleIncomingPacket(context.Background(), mk(s1), from, nil)
+	zzsymAssert(err == nil, "replay_no_error")
+	zzsymAssert(zzDrain6(c) == 0, "replayed_record_not_delivered_after_other_record")
 }
 
 func zzRec13(epochLow byte, seq uint16, body byte) []byte {
